@@ -1198,6 +1198,40 @@ def check(prog, rep):
             call.lineno, ok, 'cells off the path (and everything when no route exists) must be NaN: the image handed to the '
             'search must be a fresh float array filled with NaN')
     rets = [r for r in pub.own_nodes() if isinstance(r, ast.Return)]
+    # the image is written by the search alone: no path of the wrapper fills cells itself (a shortcut for "start is the goal"
+    # or "nothing to do" skips the crossability and connectivity tests the search makes), and what is returned wraps it
+    from ..wterm import WT, key as tkey, show as tshow
+    w = WT(prog, depth=4)
+    wret = w.run(pub)
+    recs = [x for x in w.calls if x.callee is kern]
+    okw, whyw = None, 'kernel call not found in the wrapper terms'
+    if len(recs) == 1 and recs[0].bound.get(c.img_param) is not None:
+        img_t = recs[0].bound[c.img_param]
+        FULL = ('slice', None, None, None)
+        extra = []
+        for tg, val, gs, nd in w.stores:
+            if tg[0] == 'index' and tkey(tg[1]) == tkey(img_t):
+                lead = tg[2][1] if tg[2][0] == 'tuple' else (tg[2],)
+                whole = all(x == FULL or x == ('const', Ellipsis) for x in lead)
+                isnan = val in (('global', 'np.nan'), ('global', 'numpy.nan')) or (val[0] == 'const' and isinstance(val[1], float) and val[1] != val[1])
+                if not (whole and isnan):
+                    extra.append('%s = %s' % (tshow(tg[2], 40), tshow(val, 40)))
+
+        def leaves(t_):
+            if isinstance(t_, tuple) and t_ and t_[0] == 'phi':
+                return leaves(t_[2]) + leaves(t_[3])
+            return [t_] if t_ is not None else []
+        badret = []
+        for lf in leaves(wret):
+            d_ = None
+            if isinstance(lf, tuple) and lf[0] == 'call' and str(lf[1]).endswith('DataArray'):
+                d_ = lf[2][0] if lf[2] else dict(lf[3]).get('data')
+            if d_ is None or tkey(d_) != tkey(img_t):
+                badret.append(tshow(lf, 80))
+        okw = not extra and not badret
+        whyw = ('the wrapper itself stores %s into the image' % extra[0]) if extra else (('returned on some path: %s' % badret[0]) if badret else '')
+    rep.add('A4', pub, ENTRY, 'the path image is written by the search alone and returned', call.lineno, okw,
+            'every route (also the trivial one) comes out of the search, which tests crossability and connectivity; ' + whyw)
     rep.floor('A1', 8)
     rep.floor('A2', 1)
     rep.floor('A3', 5)
